@@ -1735,35 +1735,23 @@ func (e *CoreExtension) filterMerge(value interface{}, args ...interface{}) (int
 	// Handle merging arrays/slices
 	rv := reflect.ValueOf(value)
 	if rv.Kind() == reflect.Slice || rv.Kind() == reflect.Array {
-		result := reflect.MakeSlice(rv.Type(), rv.Len(), rv.Len())
-
-		// Copy original values
+		// The result is a list of arbitrary values: the arguments need not have the element type of value
+		result := make([]interface{}, 0, rv.Len())
 		for i := 0; i < rv.Len(); i++ {
-			result.Index(i).Set(rv.Index(i))
+			result = append(result, rv.Index(i).Interface())
 		}
 
 		// Add values from the arguments
 		for _, arg := range args {
 			argRv := reflect.ValueOf(arg)
 			if argRv.Kind() == reflect.Slice || argRv.Kind() == reflect.Array {
-				// Create a new slice with expanded capacity
-				newResult := reflect.MakeSlice(rv.Type(), result.Len()+argRv.Len(), result.Len()+argRv.Len())
-
-				// Copy existing values
-				for i := 0; i < result.Len(); i++ {
-					newResult.Index(i).Set(result.Index(i))
-				}
-
-				// Append the new values
 				for i := 0; i < argRv.Len(); i++ {
-					newResult.Index(result.Len() + i).Set(argRv.Index(i))
+					result = append(result, argRv.Index(i).Interface())
 				}
-
-				result = newResult
 			}
 		}
 
-		return result.Interface(), nil
+		return result, nil
 	}
 
 	// Handle merging maps
